@@ -601,7 +601,18 @@ class Check(PropertyCheck):
         'floating point: inputs are small integers / dyadic rationals so that the three dense forms are compared '
         'exactly; cases containing an inverse (LU, CG) or a QU rotation (trigonometry) are compared within 1e-4 and their '
         'measured entries rounded to rationals with denominator <= 4096 before the comparison with the model',
-        'dtypes are not modelled (exact ring); mixed float16/float32 structures are exercised on the implementation',
+        'dtypes are not modelled (the model is an exact ring): the dtype scope - outputs wider than inputs (complex or float '
+        'parameters on real / integer / float16 data), int32, complex64 and mixed-dtype data - is judged on the '
+        'implementation: the three real dense forms and the probes are compared exactly in complex double precision and '
+        'the dtype of both as_matrix forms must be the dtype of the columns op(e_j); cases with real data of any dtype '
+        'are also compared with the model, cases with complex data are not (the executable model is over the rationals)',
+        'only operators whose declared output structure is what mv returns are generated: a @square class (scalar, '
+        'diagonal, Toeplitz) with parameters wider than its data (complex values on a real structure, float values on an '
+        'integer structure, hence also complex_scalar * real_operator) declares the narrow structure and its as_matrix '
+        'casts to it - outside the domain by C05\'s params_not_wider guard (DESIGN 10.4), not judged here',
+        'configuration scope: the closed-form NumPy matrix of a symmetric band Toeplitz operator (T[i,j] = band[|i-j|], '
+        'block diagonal over the leading axes), of einsum blocks (np.einsum) and of the user atoms is the reference of '
+        'every evaluation method; FFT methods are compared within 1e-4 (float32 FFT), inputs being half-integers',
     ]
 
     # -- cases ---------------------------------------------------------------------------------
@@ -676,8 +687,9 @@ class Check(PropertyCheck):
     NOT_WIDER = {(C64, C64), (I32, I32), (F32, C64)}   # the parameters are absorbed by the data dtype
 
     @staticmethod
-    def _pvals(rng, shape, pd, sd):
-        """Parameter values for which a cast to the data dtype is visible."""
+    def _pvals(rng, shape, pd, sd, small=False):
+        """Parameter values for which a cast to the data dtype is visible (small: a second factor of a product, kept
+        small so that every product stays exact in float32)."""
         n = int(np.prod(shape)) if shape else 1
         nest = lambda vs: np.array(vs, dtype=np.float64).reshape(shape).tolist()  # noqa: E731
         if pd == C64:
@@ -685,7 +697,7 @@ class Check(PropertyCheck):
                     'im': nest([rng.choice([-1.5, -1, 0.5, 1, 2]) for _ in range(n)]), 'dt': pd}
         if pd == I32:
             pool = [-2, -1, 1, 2, 3]
-        elif sd == F16 or sd == 'I32+F16':
+        elif (sd == F16 or sd == 'I32+F16') and not small:
             pool = [2049, -2051, 4097, 0.5, 1.5]      # float16 holds integers up to 2048 only
         elif sd == I32:
             pool = [0.5, 1.5, -0.5, 2.5, -1.5]
@@ -702,7 +714,6 @@ class Check(PropertyCheck):
         s1, s2 = leaf([3], d0), leaf([2, 3], d0)
         spt = {'dict': {'b': leaf([3], d0), 'a': leaf([3, 2], d1)}}     # equal leading dimensions
         spt2 = {'dict': {'b': leaf([3], d0), 'a': leaf([2, 3], d1)}}    # equal trailing dimensions
-        both_inexact = all(d != I32 for d in (d0, d1, od))
         out = []
 
         def add(tag, let, e='X', core=False):
@@ -746,7 +757,7 @@ class Check(PropertyCheck):
                 add('homoth-pycomplex', {'X': {'k': 'homoth2', 'v': {'re': 0.5, 'im': -1}, 's': spt}})
         # composites over a wide leaf
         N = {'k': 'homoth2', 'v': 2, 's': s1}
-        P = {'k': 'dense2', 'b': pv([2, 2]), 's': leaf([2], od), 'sub': 'ij,j->i'}
+        P = {'k': 'dense2', 'b': self._pvals(rng, [2, 2], pd, sd, small=True), 's': leaf([2], od), 'sub': 'ij,j->i'}
         add('smul-int', {'W': W1, 'X': {'k': 'smul2', 'c': 2, 'of': 'W'}})
         add('rmul-int', {'W': US, 'X': {'k': 'rmul2', 'c': -1, 'of': 'W'}})
         if od == C64:
@@ -764,11 +775,13 @@ class Check(PropertyCheck):
         add('nested-blocks', {'W': W1, 'V': W1b, 'N': N, 'R': {'k': 'row', 'blocks': ['W', 'V']},
                               'X': {'k': 'bdiagop', 'blocks': {'tuple': ['N', 'R']}}})
         add('dense-T', {'W': W1, 'X': {'k': 'expr', 'e': {'T': 'W'}}})
-        # jax.linear_transpose: inexact -> inexact or integer -> integer only; the transpose of a widening operator
-        # NARROWS (its output is the data dtype): only where that dtype holds the values exactly (not float16)
-        if both_inexact and F16 not in (d0, d1):
+        # lazy transposes (jax.linear_transpose) only where the operator does not widen: the transpose of a widening
+        # operator narrows - float32 -> float16 rounds, and complex -> real is the real part of a product, which is
+        # additive but not homogeneous over the complex scalars (outside the property: not a complex-linear map)
+        if od == d0 == d1:
             add('user-lazy-T', {'W': US, 'X': {'k': 'expr', 'e': {'T': 'W'}}})
             add('bdiag-lazy-T', {'W': {'k': 'bdiag2', 'v': pv([2, 3]), 'axis': -1, 's': s1}, 'X': {'k': 'expr', 'e': {'T': 'W'}}})
+            add('index-unique-lazy-T', {'W': {'k': 'index', 'idx': [{'arr': [2, 0]}], 's': spt, 'unique': True}, 'X': {'k': 'expr', 'e': {'T': 'W'}}})
         return out
 
     def _dtype_cases(self, rng, quick):
@@ -957,7 +970,19 @@ class Check(PropertyCheck):
             'scope (all structures with 1-3 leaves of shapes (2,),(3,),(2,2),(1,3),() in 5-6 container forms, Stokes '
             'containers, mixed float16/float32) x identity/scalar/user atom in both directions/lazy transpose/block '
             'operators of pytree-valued blocks/sums/products/ravel/diagonal/index [quick: sampled, thorough: all layouts x 4 '
-            'operator kinds]. Non-trivial: the class of the operator overrides as_matrix or the structure has several leaves.'
+            'operator kinds]; the dtype scope: 8 (parameter dtype, data dtype) combinations (complex64/float32 on '
+            'float32/int32/float16/complex64/mixed data, int32 on int32) x einsum blocks (4 subscript forms, pytrees), '
+            'broadcast diagonals (left / plain / right), user atoms with and without a declared output structure, '
+            'identity / scalar / diagonal (1-d, last axis, n-d, inverse) / ravel / reshape / index / move-axis / pack on '
+            'non-float32 data, and scalar multiples, quotients, products, sums, block row / diagonal / column (mixing real '
+            'and wide blocks, nested) and lazy transposes of wide leaves [quick: 9-11 fixed + 5 sampled per combination]; '
+            'the configuration scope: Toeplitz K in 1..4 x n in {1,2,3,5,8,13} x {dense, direct, fft, overlap_save, '
+            'default} x explicit FFT sizes 2K-1..2K+4, batched bands and data, configured operators inside composites '
+            '[quick: 35 fixed incl. odd and even sizes at K > n and over several blocks + 14 sampled + 10 batched + 3 '
+            'composites]; lazy inverses under the solvers CG / BiCGStab / GMRES / NormalCG / LU / Auto, with a '
+            'preconditioner, on a non-symmetric operand, inside a block. Non-trivial: the class of the operator overrides '
+            'as_matrix, the structure has several leaves, the output dtype is wider than the input dtype, or the operator '
+            'carries an explicit configuration.'
         )
 
     def distribution(self, cases):
